@@ -75,6 +75,10 @@ def call(
     extra_args = [key for key in parameters if key not in poly.names]
     if extra_args:
         raise TypeError(f"unexpected keyword argument '{extra_args[0]}'")
+    # a keyword given as None is a placeholder, just like a positional None
+    for name, indeterminant in zip(poly.names, poly.indeterminants):
+        if parameters[name] is None:
+            parameters[name] = indeterminant
 
     # There can only be one shape:
     ones = numpy.ones((), dtype=int)
